@@ -10,7 +10,7 @@ THEOREMS = [f"Nice.Props.C03.{t}" for t in (
     "C03_lookalike_delivered")] + [
     "Nice.Props.C03Flow.C03_inbound_effects_need_auth", "Nice.Props.C03Flow.C03_discovery_agents_only_validate_responses",
     "Nice.Props.C03Flow.C03_inbound_consumes_control_traffic", "Nice.Props.C03Flow.summary_ok", "Nice.Flow.reach_sound",
-    "Nice.Props.C04.C04_unmatched_is_response", "Nice.Props.C03Recv.C03_data_only_from_validated_source",
+    "Nice.Props.C04.C04_unmatched_is_response", "Nice.Props.C03Recv.C03_data_only_from_validated_source", "Nice.Props.C03Recv.C03_reliable_data_only_from_validated_source",
     "Nice.Props.C03Recv.summary_ok", "Nice.Flow.run_exec"]
 TRUSTED = [
     "Lean 4 kernel; axioms propext, Classical.choice, Quot.sound only (audited every run)",
@@ -59,7 +59,7 @@ def attack_packets(rng, ufrag_target, ufrag_peer, n, kinds=None):
         kind = rng.choice(kinds) if kinds else rng.choice(["random", "random-stunlike", "req-nomi", "req-trunc", "req-empty", "req-long", "req-wrongkey",
                            "req-wrongkey-fp", "resp-forged", "err487", "err403", "indication", "rtp", "othermethod",
                            "req-wrongkey-badfp", "indication-bare", "indication-wrongkey", "nocookie-req", "nocookie-req", "nocookie-ind",
-                           "rejected-then-resp", "rejected-then-resp"])
+                           "rejected-then-resp", "rejected-then-resp", "ptcp", "ptcp"])
         txid = bytes(rng.randrange(256) for _ in range(12))
         attrs = [(stunpy.A_USERNAME, uname), (stunpy.A_PRIORITY, struct.pack("!I", rng.randrange(1, 2 ** 31))),
                  (stunpy.A_CONTROLLING, struct.pack("!Q", 2 ** 64 - 1)), (stunpy.A_USE_CAND, b"")]
@@ -85,6 +85,15 @@ def attack_packets(rng, ufrag_target, ufrag_peer, n, kinds=None):
             p = stunpy.build(0, 1, txid, attrs, key=wrongkey, fingerprint=True)
         elif kind == "req-wrongkey-badfp":
             p = stunpy.build(0, 1, txid, attrs, key=wrongkey, fingerprint=True, bad_fp=True)
+        elif kind == "ptcp":
+            # well-formed pseudo-TCP segments with libnice's fixed conversation number 0: a CONNECT followed by a data segment
+            # (or a lone RST) — for a reliable agent, data only its validated peer may feed into the pseudo-TCP socket
+            now = rng.randrange(1 << 31)
+            hdr = lambda seq, flags, payload: struct.pack(">IIIBBHII", 0, seq, 0, 0, flags, 4096, now, 0) + payload
+            if rng.random() < 0.8:
+                p = (hdr(0, 2, bytes([0])), hdr(1, 0, b"EVIL" + bytes(rng.randrange(256) for _ in range(rng.choice([1, 20, 200])))))
+            else:
+                p = hdr(rng.choice([0, 1]), 4, b"")
         elif kind == "rejected-then-resp":
             # a request the agent rejects (401/400), followed from the same source by a response / error response that
             # reuses its transaction id: the id of a REJECTED request is not an outstanding transaction of the agent
@@ -139,6 +148,10 @@ def session(exe, seed, attack):
     if rng.random() < 0.5:
         cfg.update(stunsrv=rng.choice(["d", "ddd", "l", "dl", "s"]))
     flood = rng.random() < 0.06
+    # a fifth of the sessions use reliable agents (pseudo-TCP over the UDP pair): datagrams that arrive before a pair is selected
+    # are parked for the pseudo-TCP socket, so the source gate has to come first
+    if rng.random() < 0.2 and not vanish:
+        cfg.update(extra_opts=2)
     s = sc.start_session(exe, seed, cfg)
     s.op(f"net latency {lat} {lat}")          # constant latency: the network draws no random numbers
     s.op("net tickcost 0")                    # dispatching costs no virtual time: injected packets cannot shift timing
@@ -163,7 +176,9 @@ def session(exe, seed, attack):
             tgt = arng.choice("AB")
             dst = arng.choice(addrs[tgt])
             other = "A" if tgt == "B" else "B"
-            if kind == "rtp" or arng.random() < 0.6:
+            # (reliable agents: foreign sources only — a datagram carrying the validated peer's own address is, for an unauthenticated
+            #  pseudo-TCP stream, the peer's segment; spoofing the peer is outside what the source gate can decide)
+            if kind == "rtp" or arng.random() < 0.6 or cfg.get("extra_opts", 0) & 2:
                 src = f"127.0.9.{arng.randrange(1, 250)}:{arng.randrange(1024, 65000)}"
             else:
                 src = arng.choice(addrs[other])       # spoofed peer address
